@@ -9,6 +9,7 @@ package processor
 import (
 	"errors"
 	"fmt"
+	"math"
 	"sort"
 	"strings"
 	"time"
@@ -129,6 +130,11 @@ func (s *OperationProcessor) Resolve(uniqueSuffix string, opts ...document.Resol
 
 	// next apply update ops since last 'full' transaction
 	filteredUpdateOps := getOpsWithTxnGreaterThanOrUnpublished(updateOps, rm.LastOperationTransactionTime, rm.LastOperationTransactionNumber)
+	if rm.VersionID == "" {
+		// last 'create' or 'full' operation is unpublished: it will be anchored after every published update,
+		// so only unpublished updates can follow it
+		filteredUpdateOps = getOpsWithTxnGreaterThanOrUnpublished(updateOps, math.MaxUint64, math.MaxUint64)
+	}
 	if len(filteredUpdateOps) > 0 {
 		s.logger.Debug("Applying update operations after last full operation", logfields.WithTotal(len(filteredUpdateOps)),
 			logfields.WithSuffix(uniqueSuffix))
